@@ -119,8 +119,13 @@ Definition check_definitions_bad_spot (fixed : bool) (h : handler) (cols : list 
   : res (list issue) :=
   cat_map (fun c => with_ctx h CSidecarCol (str_ctx (fst c)) (fun h2 => cat_map (fewc fixed h2) (snd c))) cols.
 
-(* SidecarValidator.validate.  [sort_early]: false = the code as it is (the early return hands the
-   structure / reference issues back unsorted); true = proposed "return sort_issues(issues)". *)
+(* Mirror of harness/c12.py SORT_EARLY: true = the code as it is in /repo since fix commit 8c0dae9
+   ("return sort_issues(issues)" on the early return). *)
+Definition code_sorts_early : bool := true.
+
+(* SidecarValidator.validate.  [sort_early]: true = the code as it is (fix commit 8c0dae9: the early
+   return sorts too); false = the behaviour BEFORE that commit (the early return handed the structure /
+   reference issues back unsorted -- finding C12-F2, repaired). *)
 Definition sidecar_validate (fixed sort_early : bool) (h0 : handler) (inp : sc_input) : res (list issue) :=
   let h := push_error_context h0 CFile (si_name inp) in
   let* issues := cat (validate_structure fixed h (si_struct inp))
@@ -249,5 +254,6 @@ Definition table_validate_gen (gate : list issue -> bool) (fixed : bool) (h0 : h
 
 Definition table_validate := table_validate_gen check_for_any_errors.
 
-(* the independently seeded change: "if new_column_issues:" instead of the test for errors *)
+(* a hypothetical variant (an independently seeded change, never in /repo): "if new_column_issues:"
+   instead of the test for errors *)
 Definition gate_nonempty (l : list issue) : bool := match l with [] => false | _ => true end.
